@@ -190,6 +190,11 @@ func (m *model) openCache(x string, freshHandle bool) error {
 	}
 	c.Bugs().SetCacheSize(cacheSize)
 	c.Identities().SetCacheSize(cacheSize)
+	// a session starts by listing: whatever the cache keeps between two listings is in place from
+	// here on. After that only the resolveall action and the observation at the end of a path list
+	// again, so removals and arrivals in between go unobserved
+	_ = c.Bugs().AllIds()
+	_ = c.Identities().AllIds()
 	m.caches[x] = c
 	return nil
 }
@@ -305,9 +310,14 @@ func (m *model) users() []string {
 
 // target is the first bug (in creation order) present in x's cache; last the most recent one.
 func (m *model) targets(x string) (first, last entity.Id) {
+	// asked id by id: listing (AllIds) here would make every action re-read the cache's id list, and
+	// a list kept stale between two listings could never be observed (the model knows every bug
+	// ever created, m.order)
 	have := map[entity.Id]bool{}
-	for _, id := range m.caches[x].Bugs().AllIds() {
-		have[id] = true
+	for _, id := range m.order {
+		if _, err := m.caches[x].Bugs().ResolveExcerpt(id); err == nil {
+			have[id] = true
+		}
 	}
 	for _, id := range m.order {
 		if have[id] {
@@ -566,7 +576,12 @@ func (m *model) apply(k, x string) (string, []xstate.Violation, error) {
 		if err != nil {
 			return "edit-" + errTag(err), nil, nil
 		}
-		ids := c.Bugs().AllIds()
+		var ids []entity.Id
+		for _, id := range m.order {
+			if _, err := c.Bugs().ResolveExcerpt(id); err == nil {
+				ids = append(ids, id)
+			}
+		}
 		sort.Slice(ids, func(i, j int) bool { return ids[i] < ids[j] })
 		for _, id := range ids {
 			if id != first {
